@@ -142,6 +142,10 @@ func (p *Parser) Parse() (al align.Alignment, err error) {
 			currentnbseqs = 0
 		}
 
+		// After the header, "clustal" is a sequence name like any other
+		if tok == CLUSTAL {
+			tok = IDENTIFIER
+		}
 		if tok != IDENTIFIER && tok != NUMERIC {
 			err = errors.New("we expect a sequence identifier here")
 			return
